@@ -28,6 +28,7 @@ func init() {
 			ruleC02R8(r)
 			ruleResumeRestoresConnected(r, "R9", "Upstream")
 			ruleNoSwallowedErrors(r, "R10", 30, false, "/iscp")
+			ruleC02R11(r)
 			r.borrow("C07", func() { ruleC07R1(r) }) // the shared store is keyed by stream id (anchor iscp/storage.go)
 			ruleC01R8(r)
 		},
@@ -564,5 +565,79 @@ func ruleC02R8(r *Run) {
 	}
 	if n == 0 {
 		r.Undecided("result forwarders", "no select forwards per-chunk results")
+	}
+}
+
+// ruleC02R11: a chunk's acknowledgement is routed to the goroutine waiting for it through the table
+// upstreamChunkResultChs. Every start of a transmission-and-wait (first transmission and retransmission after a resume)
+// must therefore be preceded by the registration of the very channel it is going to wait on, under the chunk's own
+// sequence number; otherwise the result is never delivered, the chunk never leaves the store and Close waits in vain.
+func ruleC02R11(r *Run) {
+	r.Begin("R11", "the waiter is registered before it waits: every call (or go statement) of Upstream.sendChunkAndWaitAck is dominated by a map update that stores its channel argument into Upstream.upstreamChunkResultChs under a key that derives from the chunk's sequence number", 2)
+	p := r.P
+	target := r.method("/iscp", "Upstream", "sendChunkAndWaitAck")
+	if target == nil {
+		return
+	}
+	n := 0
+	for _, fn := range p.Funcs {
+		if fnPkgPath(fn) != modPath+"/iscp" || fn.Blocks == nil {
+			continue
+		}
+		k := 0
+		allInstrs(fn, func(ins ssa.Instruction) {
+			cc := instrCall(ins)
+			if cc == nil || cc.StaticCallee() != target {
+				return
+			}
+			n++
+			k++
+			name := fnName(fn)
+			chArg := cc.Args[len(cc.Args)-1]
+			chunkArg := cc.Args[len(cc.Args)-2]
+			ok, keyOK := false, false
+			allInstrs(fn, func(x ssa.Instruction) {
+				mu, isMU := x.(*ssa.MapUpdate)
+				if !isMU || !hasLeaf(p.Leaves(mu.Map, provOpts{}), "field:/iscp.Upstream.upstreamChunkResultChs") {
+					return
+				}
+				if !(canonVal(mu.Value) == canonVal(chArg) || sameValue(mu.Value, chArg)) || !dominatesInstr(mu, ins) {
+					return
+				}
+				ok = true
+				kl := p.Leaves(mu.Key, provOpts{})
+				if hasLeaf(kl, "field:/message.StreamChunk.SequenceNumber") || hasLeafPrefix(kl, "rangekey:") || hasLeaf(kl, "call:/iscp.sequenceNumberGenerator.Next") {
+					keyOK = true
+				}
+			})
+			_ = chunkArg
+			r.Check(fmt.Sprintf("%s transmission#%d waiter registered", name, k), ok && keyOK, posOf(p, ins), name, fmt.Sprintf("channel stored into upstreamChunkResultChs before the call: %v; under the chunk's sequence number: %v", ok, keyOK))
+		})
+	}
+	if n == 0 {
+		r.Undecided("transmission sites", "no call of sendChunkAndWaitAck found")
+	}
+	// the non-reliable branch of a resume clears the store (chunks that will not be retransmitted must not keep Close waiting)
+	run := r.method("/iscp", "Upstream", "run")
+	if run != nil {
+		clears := 0
+		withAnon(run, func(f *ssa.Function) {
+			clears += len(findCalls(f, false, "/iscp.sentStorage.Clear"))
+		})
+		r.Check(fnName(run)+" clears the store when a non-reliable stream resumes", clears > 0, p.pos(run.Pos()), fnName(run), fmt.Sprintf("%d call(s) of sentStorage.Clear in run: chunks of an unreliable stream are not retransmitted after a resume, so they have to leave the store or Close waits for acknowledgements that cannot come", clears))
+		// …and it does so on the resume edge
+		for _, c := range findCalls(run, false, "/iscp.sentStorage.Clear") {
+			okEdge := false
+			allInstrs(run, func(x ssa.Instruction) {
+				ifs, isIf := x.(*ssa.If)
+				if !isIf {
+					return
+				}
+				if prm, isP := ifs.Cond.(*ssa.Parameter); isP && prm.Type().String() == "bool" && edgeDominates(ifs.Block(), ifs.Block().Succs[0], c.Block()) {
+					okEdge = true
+				}
+			})
+			r.Check(fnName(run)+" clears only on resume", okEdge, posOf(p, c), fnName(run), "the Clear must lie on the true edge of the isResume parameter")
+		}
 	}
 }
